@@ -13,7 +13,7 @@
 //!   eq    T | F | P (panic) | NOSIG (the first string does not parse)
 //!   repr  <a==b>:<hash writes equal>:<DefaultHasher equal>:<cmp L|E|G>:<hash writes of a, hex>:<to_string a>:<string_len a>
 //!         | NOGV when a tree uses Maybe and the gvariant feature is off
-//!   deep  OK:<string_len>:<round trip T|F>:<eq T|F|P> | ERR | ABORT (child killed by a signal)
+//!   deep  OK:<string_len> | ERR | ABORT (child killed by a signal)
 use std::hash::{DefaultHasher, Hash, Hasher};
 use std::io::Write;
 use std::panic::{catch_unwind, AssertUnwindSafe};
@@ -280,11 +280,7 @@ fn deep_string(w: &[&str]) -> Option<(usize, String)> {
 fn deep_inproc(s: &str) -> String {
     match Signature::from_str(s) {
         Err(_) => "ERR".into(),
-        Ok(sig) => {
-            let shown = sig.to_string();
-            let rt = shown == s || sig.to_string_no_parens() == s;
-            format!("OK:{}:{}:{}", sig.string_len(), tf(rt), eq_str(&sig, s))
-        }
+        Ok(sig) => format!("OK:{}", sig.string_len()),
     }
 }
 
